@@ -2,7 +2,7 @@
    cross-check: one case (as written by the harness) and the implementation's
    observation in, the model's observation and the spec verdicts out. *)
 From Model Require Import Str Sexp Http Cors Template Table Curly DetectRoute Jsr311 Router.
-From Spec Require Import CorsSpec.
+From Spec Require Import CorsSpec RouteSpec.
 
 Definition verdict (name : string) (b : bool) : sexp := Lst [A (L name); of_bool b].
 
@@ -68,17 +68,84 @@ Definition routed_obs (t : table) (x : routed) : sexp :=
   | RPanic => Lst [I 2; I 200; Lst []; Lst []; Lst []; A []; I 1]
   end.
 
+Fixpoint find_route (id : Z) (wss : list service) : option (service * route) :=
+  match wss with
+  | [] => None
+  | w :: wss' =>
+      match find (fun r => Z.eqb (r_id r) id) (s_routes w) with
+      | Some r => Some (w, r)
+      | None => find_route id wss'
+      end
+  end.
+
+(* canonical parameter map of the spec's bindings (later binding of a name wins) *)
+Definition canon_bindings (b : list (str * str)) : sexp :=
+  of_params (fold_left (fun m kv => pset (fst kv) (snd kv) m) b []).
+
 Definition run_route (c impl : sexp) : sexp :=
   let O := sx_oracles (sx_nth 0 c) in
   let t := sx_table (sx_nth 1 c) in
   let req := sx_request (sx_nth 2 c) in
   let x := route_request O t req in
+  (* what the implementation did *)
+  let i_class := sx_int (sx_nth 0 impl) in
+  let i_invoked := map sx_int (sx_list (sx_nth 3 impl)) in
+  let i_params := sx_nth 4 impl in
+  let i_selpath := sx_str (sx_nth 5 impl) in
+  let i_selok := sx_bool (sx_nth 6 impl) in
+  let inv := match i_invoked with [id] => find_route id (t_services t) | _ => None end in
+  let wf_inv := match inv with Some (w, r) => wf_route_for t w r | None => false end in
+  let v_c01 := match i_invoked, inv with
+               | [], _ => true
+               | [_], Some (w, r) => implb (wf_route_for t w r) (admits_for O t w r req)
+               | _, _ => false
+               end in
+  let v_sel := match i_invoked, inv with
+               | [], _ => true
+               | [_], Some (w, r) => i_selok && str_eqb i_selpath (route_path w r)
+               | _, _ => false
+               end in
+  let v_c04 := match i_invoked, inv with
+               | [_], Some (w, r) =>
+                   implb (wf_route_for t w r && distinct (names_for t w r))
+                         (sexp_eqb i_params (canon_bindings (bindings_for t w r (rq_path req))))
+               | _, _ => true
+               end in
+  (* C02: the service is the router's choice, the outcome is the declarative cascade
+     over the routes of that service whose template admits the path *)
+  let best := match t_router t with
+              | Curly => detect_web_service O (tokenize (rq_path req)) (t_services t)
+              | Jsr311 => match detect_dispatcher O (rq_path req) (t_services t) with
+                          | Some (w, _) => Some w | None => None end
+              end in
+  let expected := match best with
+                  | None => SStatus 404 []
+                  | Some w =>
+                      spec_cascade (filter (fun r =>
+                          match t_router t with
+                          | Curly => admits_path O (route_tpl w r) (tokenize (rq_path req))
+                          | Jsr311 => jsr_admits_path O w r (rq_path req)
+                          end) (s_routes w)) req
+                  end in
+  let wf_best := match best with
+                 | None => true
+                 | Some w => forallb (wf_route_for t w) (s_routes w)
+                 end in
+  let v_c02 := implb wf_best
+                 (outcome_meets expected i_class (sx_int (sx_nth 1 impl)) (sx_strs (sx_nth 2 impl)) i_invoked) in
   let cls := match x with
              | RInvoke _ _ _ => "invoked"
              | RError E404 => "404" | RError (E405 _) => "405" | RError E415 => "415" | RError E406 => "406"
              | RPanic => "panic"
              end%string in
-  Lst [ routed_obs t x; Lst []; A (L cls); Lst [] ].
+  Lst [ routed_obs t x;
+        Lst [ verdict "c01_invoked_route_admits_request" v_c01;
+              verdict "c01_selected_route_is_invoked_route" v_sel;
+              verdict "c04_parameters_are_the_url_text" v_c04;
+              verdict "c02_no_panic" (negb (Z.eqb i_class 2));
+              verdict "c02_outcome_exact" v_c02 ];
+        A (L cls);
+        Lst [ verdict "wf_invoked_route" wf_inv; verdict "wf_best_service" wf_best ] ].
 
 Definition run_case (c impl : sexp) : sexp :=
   let dom := sx_str (sx_nth 0 c) in
